@@ -1,5 +1,6 @@
 import Dbg.Driver.C07
 import Dbg.Driver.C08
+import Dbg.Driver.C10
 /-! `dbgdriver`: one request per line on stdin (`<prop> <op> <args…>\t<implementation answer>`),
     one line per request on stdout (`<model answer>\t<verdict of holdsCxx on the implementation answer>`). -/
 open Drv
@@ -8,6 +9,7 @@ def dispatch (prop : String) (args : List String) (impl : String) : R Ans :=
   match prop with
   | "C07" => C07.handle args impl
   | "C08" => C08.handle args impl
+  | "C10" => C10.handle args impl
   | _ => throw s!"unknown-property:{prop}"
 
 def answer (line : String) : String :=
